@@ -28,7 +28,7 @@ RULE = (
     "after completion, or a merge raises"
 )
 ASSUMPTIONS = [
-    "metric classes are truthy (no __bool__/__len__)",
+    "M2 instances are falsy (__bool__ returns False): still folded like any other metric",
     "a record made through a context whose scope already completed is dropped (and never raises)",
 ]
 BOUNDS = {
@@ -47,6 +47,9 @@ class M1(State):
 class M2(State):
     n: int
     trail: str
+
+    def __bool__(self) -> bool:  # a metric whose instances are falsy is still a recorded value
+        return False
 
 
 def concat(lhs, rhs):
@@ -68,7 +71,7 @@ def view_first(cur, got):
 
 
 POSITIONS1 = ["out-pre", "root-pre", "c0-body", "root-post", "c0-late", "out-post"]
-OPTIONS = [("M1", "default"), ("M1", "concat"), ("M1", "raising"), ("M2", "default")]
+OPTIONS = [("M1", "default"), ("M1", "concat"), ("M1", "raising"), ("M2", "default"), ("M2", "concat")]
 
 
 def programs(tier: str):
@@ -100,7 +103,7 @@ def programs(tier: str):
                         if nchild and nrec == b["records"] and not any(p.startswith("c") for p in pos):
                             continue
                         for opts in itertools.product(range(len(OPTIONS)), repeat=nrec):
-                            if nrec >= 3 and sum(1 for o in opts if o == 3) > 1:
+                            if nrec >= 3 and (sum(1 for o in opts if o == 3) > 1 or 4 in opts):
                                 continue
                             if nrec == 4 and len(set(opts)) > 2:
                                 continue
